@@ -26,6 +26,7 @@ pub struct Registry {
     pub props: Vec<String>,
     pub assertions: Vec<String>,
     pub keys_used: Vec<(String, String)>,
+    pub evidence: Vec<String>,
 }
 
 impl Registry {
@@ -42,6 +43,7 @@ impl Registry {
                         "concept" => self.concepts.push(id),
                         "proposition" => self.props.push(id),
                         "assertion" => self.assertions.push(id),
+                        "evidence" => self.evidence.push(id),
                         _ => {}
                     }
                 }
@@ -65,10 +67,21 @@ fn concept_clause(rng: &mut Rng, handle: &str, bad: bool) -> String {
 }
 
 fn assertion_clause(handle: &str, prop: &str, by: &str, rng: &mut Rng) -> String {
+    assertion_clause_citing(handle, prop, by, rng, &[])
+}
+
+/// An assertion that may cite an existing Evidence record (a material input:
+/// classification and lineage are derived from it at creation).
+fn assertion_clause_citing(handle: &str, prop: &str, by: &str, rng: &mut Rng, evidence: &[String]) -> String {
     let stance = *rng.pick(&["support", "support", "reject", "uncertain"]);
     let mode = *rng.pick(&["stated", "observed", "inferred", "hypothetical"]);
     let conf = ["0.9", "0.6", "0.3", "1.0"][rng.usize(4)];
-    format!("CREATE ASSERTION ?{handle} {{ SET FIELDS {{ proposition: {prop}, asserted_by: {by}, stance: \"{stance}\", mode: \"{mode}\", confidence: {conf} }} }}")
+    let cite = if !evidence.is_empty() && rng.chance(1, 2) {
+        format!(" SET STRUCTURAL {{(\"evidence\", {{id: \"{}\"}}) {{role: \"support\"}}}}", evidence[rng.usize(evidence.len())])
+    } else {
+        String::new()
+    };
+    format!("CREATE ASSERTION ?{handle} {{ SET FIELDS {{ proposition: {prop}, asserted_by: {by}, stance: \"{stance}\", mode: \"{mode}\", confidence: {conf} }}{cite} }}")
 }
 
 pub fn generate(rng: &mut Rng, reg: &Registry) -> Stmt {
@@ -83,7 +96,7 @@ pub fn generate(rng: &mut Rng, reg: &Registry) -> Stmt {
         all.extend(reg.concepts.iter().cloned());
         if all.is_empty() || rng.chance(1, 12) { "C-999".to_string() } else { all[rng.usize(all.len())].clone() }
     };
-    let (family, text) = match rng.weighted(&[14, 10, 22, 10, 8, 8, 8, 5, 6, 5, 3]) {
+    let (family, text) = match rng.weighted(&[14, 10, 22, 10, 8, 8, 8, 5, 6, 5, 3, 5]) {
         0 => {
             let bad = rng.chance(1, 8);
             ("create-concept", concept_clause(rng, "x", bad))
@@ -106,7 +119,7 @@ pub fn generate(rng: &mut Rng, reg: &Registry) -> Stmt {
             clauses.push(concept_clause(rng, "o", false));
             let ev0 = if rng.chance(1, 5) { " EXPECT VERSION 0" } else { "" };
             clauses.push(format!("ENSURE PROPOSITION ?p (?s, \"prefers\", ?o){ev0}"));
-            clauses.push(assertion_clause("a", "?p", "?s", rng));
+            clauses.push(assertion_clause_citing("a", "?p", "?s", rng, &reg.evidence));
             if rng.chance(1, 3) {
                 let p2 = any_concept(rng);
                 let o2 = bind("ex", &p2);
@@ -194,6 +207,10 @@ pub fn generate(rng: &mut Rng, reg: &Registry) -> Stmt {
             let a = any_concept(rng);
             let b = any_concept(rng);
             ("merge", format!("MERGE CONCEPT \"{a}\" INTO \"{b}\""))
+        }
+        11 => {
+            let word = *rng.pick(&["ledger", "memo", "transcript", "photo"]);
+            ("create-evidence", format!("CREATE EVIDENCE ?e {{ SET FIELDS {{evidence_class: \"Document\", payload: \"the {word}\"}} }}"))
         }
         _ => {
             // physical erasure, alone or followed by a clause that fails
